@@ -37,7 +37,7 @@ var guards2Funcs = []g2cfg{
 	{fn: "accept", acts: []string{"http.Error", "w.Header().Set", "w.WriteHeader", "hj.Hijack", "log.Printf"},
 		local: []string{"verifyClientRequest", "authenticateOrigin", "selectSubprotocol", "selectDeflate", "newConn", "secWebSocketAccept", "cloneWithDefaults", "websocketExtensions"}},
 	{fn: "authenticateOrigin", acts: []string{"url.Parse"}, local: []string{"match"}},
-	{fn: "acceptDeflate", track: []string{"copts.clientNoContextTakeover", "copts.serverNoContextTakeover", "seen[name]"}, local: []string{"opts"}},
+	{fn: "acceptDeflate", track: []string{"copts.clientNoContextTakeover", "copts.serverNoContextTakeover", "seen[name]"}},
 	{fn: "selectDeflate", local: []string{"acceptDeflate"}},
 	{fn: "verifyServerResponse", local: []string{"verifySubprotocol", "verifyServerExtensions", "headerContainsTokenIgnoreCase", "secWebSocketAccept"}},
 	{fn: "verifySubprotocol"},
